@@ -82,6 +82,11 @@ def holds (n m cap : Nat) (ops : List Op) (strict : Bool) (o : Obs) : Bool :=
   holdsWith n m (if strict then fun _ => false else pendSyn ops) (goneSyn n ops)
     (run .repaired (init n cap) ops).evicted o
 
+/-- The strict property on a history with the finer kick steps (used only to state the recorded
+finding `evict-close-window`; no `accept … close` bookkeeping is needed there). -/
+def holdsFine (n m cap : Nat) (ops : List FineOp) (o : Obs) : Bool :=
+  holdsWith n m (fun _ => false) (fun _ => false) (runFine .repaired (init n cap) ops).evicted o
+
 /-- The property for a concurrent run: `ops` = prefix ++ all thread blocks (every operation has
 returned before the snapshot).  Only history facts that do not depend on the order are used. -/
 def holdsPar (n m : Nat) (ops : List Op) (o : Obs) : Bool :=
